@@ -141,6 +141,22 @@ def swap_multiples(rep, index, m):
     c10_runs.run_clause(rep, index, m)
 
 
+def _allocated_with_len(fn, call, data_p):
+    """bytearray(len(data)) or bytearray(n) with n assigned exactly once, from len(data)."""
+    if not (isinstance(call, ast.Call) and isinstance(call.func, ast.Name) and call.func.id == "bytearray" and len(call.args) == 1 and not call.keywords):
+        return False
+    a = call.args[0]
+    want = "len(%s)" % data_p
+    if ast.unparse(a) == want:
+        return True
+    if isinstance(a, ast.Name):
+        defs = [st for st in walk_no_nested(fn) if isinstance(st, (ast.Assign, ast.AugAssign, ast.AnnAssign, ast.For))
+                and any(isinstance(n, ast.Name) and isinstance(n.ctx, ast.Store) and n.id == a.id
+                        for t in (st.targets if isinstance(st, ast.Assign) else [st.target]) for n in ast.walk(t))]
+        return len(defs) == 1 and isinstance(defs[0], ast.Assign) and ast.unparse(defs[0].value) == want
+    return False
+
+
 def _mutations(fn, buf):
     """Statements/expressions that may mutate the buffer parameter."""
     out = []
@@ -204,7 +220,7 @@ def weave(rep, index, m):
             if assign is not None and isinstance(assign.value, ast.Name):
                 bname = assign.value.id
                 allocs = [st for st in walk_no_nested(fn) if isinstance(st, ast.Assign) and any(isinstance(t, ast.Name) and t.id == bname for t in st.targets)]
-                good_alloc = (len(allocs) == 1 and isinstance(allocs[0].value, ast.Call) and ast.unparse(allocs[0].value) == "bytearray(len(%s))" % data_p)
+                good_alloc = len(allocs) == 1 and _allocated_with_len(fn, allocs[0].value, data_p)
                 bmuts = _mutations(fn, bname)
                 only_index = all(isinstance(x, ast.Subscript) and not isinstance(x.slice, ast.Slice) for x in bmuts)
                 ok = good_alloc and only_index
